@@ -389,7 +389,8 @@ class LayoutGen:
         """functions passed instead of lambdas (`def` branch), and lambdas written inside one-line functions"""
         r = self.r
         k = r.choice(["one", "one", "two", "doc", "two_stmts", "decorated", "decorated_lambda", "static", "contains",
-                      "contains", "default_lambda", "no_return", "lead_stmt", "lead_stmt", "lead_stmt", "lead_noop"])
+                      "contains", "default_lambda", "no_return", "lead_stmt", "lead_stmt", "lead_stmt", "lead_noop",
+                      "mlstring", "mlstring"])
         a = self.argname()
         op = r.choice(OPS)
         ret = "%s.v + %%d" % a if not (op == "Where" and self.real) else "%s.v != %%d" % a
@@ -440,6 +441,15 @@ class LayoutGen:
             self.cases[m] = Case(m, "def", op, [a], True, False, "def_lead_" + form)
             return pre + ["%s%d%sdef g_%d(%s):" % (TAG_A, m, TAG_B, m, a)] + ["    " + x for x in body] + \
                    ["r = ds.%s(g_%d)" % (op, m)]
+        if k == "mlstring":
+            # F40: the body holds a multi-line string literal; inside an enclosing block its continuation lines are indented with
+            # the def (they are part of the string), so re-indenting the def's source must not touch them
+            m = self.marker("def", op, [a], True, True, "def_multiline_string")
+            head = "%s%d%sdef g_%d(%s):" % (TAG_A, m, TAG_B, m, a)
+            expr = '%s + len("""' % (ret % m)
+            if r.random() < .5:
+                return [head + " return " + expr, "ab cd", '  ef""")', "r = ds.%s(g_%d)" % (op, m)]
+            return [head, "    return " + expr, "ab cd", '  ef""")', "r = ds.%s(g_%d)" % (op, m)]
         if k == "one":
             m = self.marker("def", op, [a], True, True, "def_one_line")
             return ["%s%d%sdef g_%d(%s): return %s" % (TAG_A, m, TAG_B, m, a, ret % m), "r = ds.%s(g_%d)" % (op, m)]
